@@ -74,7 +74,7 @@ def qsbr_timing_oracle(raw):
     ev = events(raw); open_ = {}; sections = []; syncs = []; so = {}
     for i, p in enumerate(ev):
         t, k = p[0], p[1]
-        if k == 'call' and p[2] in ('qs', 'offline', 'sync') and t in open_: sections.append((t, open_.pop(t), i))
+        if k == 'call' and p[2] in ('qs', 'offline', 'sync', 'unregister') and t in open_: sections.append((t, open_.pop(t), i))
         if (k == 'call' and p[2] == 'begin') or (k == 'ret' and p[2] in ('qs', 'online')): open_[t] = i
         if k == 'call' and p[2] == 'sync': so[t] = i
         elif k == 'ret' and p[2] == 'sync' and t in so: syncs.append((t, so.pop(t), i)); open_[t] = i
